@@ -1,5 +1,253 @@
 import OasisModel.Proto
-/- C17 registry index: driver stub (not built yet). -/
+import OasisModel.Registry.Index
+/-
+Driver for the registry model (C17), line protocol of harness/cmd/registrydrv.
+
+  new <maxNodeExpiration> <debondingInterval> <tx|raw>          fresh state (starts a case)
+  <op> => <result> | <dump tokens of the real state after the op>
+
+ops (public keys and runtime ids are numbers):
+  regentity <tx> <id> <nodes> <descsigner> <sigvalid>
+  deregentity <tx>
+  regnode <tx> <node> <signers> <sigvalid>          node = id:ent:cons:p2p:tls:vrf:exp:roles:rts
+  regruntime <e<k>|r<id>> <id> <ent> <e|r|c> <c|k>
+  epoch <e>
+  setnode <existing node|-> <node> | removenode <node> | setstatus <id> <0|1> | suspend <rt>   (raw state calls)
+
+Answer per line: `ok` (possibly followed by `NOTE:<observation>` tokens), or `DIVERGE result ...` / `DIVERGE state ...` when the model's result or
+state differs from the implementation's, and/or `SPEC <clause>` when the executable invariant
+`invB` (the definition the theorems are about) is false on the dumped real state (mode `tx` only).
+After a divergence every line is answered `skip` until the next `new`.
+
+The environment variable `OM_REGISTRY_ORDER=removalsfirst|interleaved` overrides the order of sub-key writes (default `codeOrder`).
+-/
 namespace OasisModel.Registry.Driver
-def main : IO Unit := IO.eprintln "mode not implemented"
+open OasisModel.Proto OasisModel.Registry
+
+structure St where
+  s : State
+  ord : Order
+  spec : Bool := true
+  dead : Bool := false
+
+/-! ### parsing -/
+
+def parseNode (t : String) : Option Node :=
+  match t.splitOn ":" with
+  | [id, ent, cons, p2p, tls, vrf, exp, roles, rts] => do
+    let id ← id.toNat?; let ent ← ent.toNat?; let cons ← cons.toNat?; let p2p ← p2p.toNat?
+    let tls ← tls.toNat?; let vrf ← vrf.toNat?; let exp ← exp.toNat?; let roles ← roles.toNat?
+    let rts ← parseNats rts
+    pure { id, entity := ent, cons, p2p, tls, vrf, expiration := exp, roles, runtimes := rts }
+  | _ => none
+
+def showNode (n : Node) : String :=
+  s!"{n.id}:{n.entity}:{n.cons}:{n.p2p}:{n.tls}:{n.vrf}:{n.expiration}:{n.roles}:{showNats n.runtimes}"
+
+def parseGov : String → Option Gov
+  | "e" => some .entity | "r" => some .runtime | "c" => some .consensus | _ => none
+def showGov : Gov → String
+  | .entity => "e" | .runtime => "r" | .consensus => "c"
+def parseKind : String → Option Kind
+  | "c" => some .compute | "k" => some .keymanager | _ => none
+def showKind : Kind → String
+  | .compute => "c" | .keymanager => "k"
+
+def parseAddr (t : String) : Option Addr :=
+  match t.toList with
+  | 'e' :: r => (String.ofList r).toNat?.map Addr.ent
+  | 'r' :: r => (String.ofList r).toNat?.map Addr.rt
+  | _ => none
+def showAddr : Addr → String
+  | .ent k => s!"e{k}" | .rt r => s!"r{r}"
+
+def parseClaim (t : String) : Option Claim :=
+  match t.toList with
+  | ['e'] => some .entity
+  | 'n' :: r => (String.ofList r).toNat?.map Claim.node
+  | 'r' :: r => (String.ofList r).toNat?.map Claim.runtime
+  | _ => none
+def showClaim : Claim → String
+  | .entity => "e" | .node k => s!"n{k}" | .runtime r => s!"r{r}"
+
+def pair (sep : String) (t : String) : Option (Nat × Nat) :=
+  match t.splitOn sep with
+  | [a, b] => do pure (← a.toNat?, ← b.toNat?)
+  | _ => none
+
+/-! ### rendering the model state as the harness' dump tokens -/
+
+def insertStr (x : String) : List String → List String
+  | [] => [x]
+  | y :: ys => if x ≤ y then x :: y :: ys else y :: insertStr x ys
+
+def sortStrs (l : List String) : List String := l.foldr insertStr []
+
+def sortNats (l : List Nat) : List Nat :=
+  l.foldr (fun x acc =>
+    let rec ins : List Nat → List Nat
+      | [] => [x]
+      | y :: ys => if x ≤ y then x :: y :: ys else y :: ins ys
+    ins acc) []
+
+def tokens (s : State) : List String :=
+  let ents := s.entities.map fun p => s!"E{p.1}:{showNats p.2}"
+  let nodes := s.nodes.map fun p => "N" ++ showNode p.2
+  let rts := s.runtimes.map fun p =>
+    s!"R{p.1}:{p.2.entity}:{showGov p.2.gov}:{showKind p.2.kind}:{if p.2.suspended then 1 else 0}"
+  -- API view
+  let apiK := s.keyMap.filterMap fun p => (nodeBySubKey s p.1).map fun n => s!"K{p.1}>{n.id}"
+  let apiA := s.consAddr.map fun p => s!"A{p.1}>{p.2}"
+  let entsOfIdx := (s.byEntity.map (·.1.1)).eraseDups
+  let apiG := entsOfIdx.map fun e =>
+    let ids := (s.byEntity.filter fun p => p.1.1 = e).map (·.1.2)
+    if ids.all (fun id => s.nodes.has id) then
+      s!"G{e}:{showNats (sortNats ((ids.filterMap fun id => (s.nodes.get id).map (·.id))))}"
+    else s!"G{e}:ERR"
+  let apiHn := entsOfIdx.map fun e => s!"Hn{e}"
+  let apiHr := ((s.rtByEntity.map (·.1.1)).eraseDups).map fun e => s!"Hr{e}"
+  -- raw view
+  let rawK := s.keyMap.map fun p => s!"k{p.1}>{p.2}"
+  let rawA := s.consAddr.map fun p => s!"a{p.1}>{p.2}"
+  let rawB := s.byEntity.map fun p => s!"b{p.1.1}/{p.1.2}"
+  let rawO := s.rtByEntity.map fun p => s!"o{p.1.1}/{p.1.2}"
+  let st := s.status.map fun p => s!"S{p.1}:{if p.2.expirationProcessed then 1 else 0}"
+  let cl := s.claims.map fun p => s!"C{showAddr p.1.1}/{showClaim p.1.2}"
+  sortStrs (ents ++ nodes ++ rts ++ apiK ++ apiA ++ apiG ++ apiHn ++ apiHr ++ rawK ++ rawA ++ rawB ++ rawO ++ st ++ cl)
+
+/-! ### reading the real state back from the raw dump tokens -/
+
+def tail1 (t : String) : String := String.ofList (t.toList.drop 1)
+
+/-- Build a `State` from the dump (records and *raw* indexes; the API-view tokens are ignored). -/
+def readState (p : Params) (epoch : Nat) (toks : List String) : Option State :=
+  toks.foldlM (init := ({ (OasisModel.Registry.init p) with epoch := epoch } : State)) fun s t =>
+    match t.toList.head? with
+    | some 'E' => match (tail1 t).splitOn ":" with
+      | [e, ns] => do pure { s with entities := s.entities.set (← e.toNat?) (← parseNats ns) }
+      | _ => none
+    | some 'N' => do let n ← parseNode (tail1 t); pure { s with nodes := s.nodes.set n.id n }
+    | some 'R' => match (tail1 t).splitOn ":" with
+      | [id, ent, g, k, su] => do
+        let id ← id.toNat?
+        let rt : Runtime :=
+          { id := id, entity := ← ent.toNat?, gov := ← parseGov g, kind := ← parseKind k, suspended := su == "1" }
+        pure { s with runtimes := s.runtimes.set id rt }
+      | _ => none
+    | some 'k' => do let (k, id) ← pair ">" (tail1 t); pure { s with keyMap := s.keyMap.set k id }
+    | some 'a' => do let (k, id) ← pair ">" (tail1 t); pure { s with consAddr := s.consAddr.set k id }
+    | some 'b' => do let (e, id) ← pair "/" (tail1 t); pure { s with byEntity := s.byEntity.set (e, id) () }
+    | some 'o' => do let (e, r) ← pair "/" (tail1 t); pure { s with rtByEntity := s.rtByEntity.set (e, r) () }
+    | some 'S' => do
+      let (id, p) ← pair ":" (tail1 t)
+      pure { s with status := s.status.set id { expirationProcessed := p == 1 } }
+    | some 'C' => match (tail1 t).splitOn "/" with
+      | [a, c] => do pure { s with claims := s.claims.set (← parseAddr a, ← parseClaim c) () }
+      | _ => none
+    | some 'K' | some 'A' | some 'G' | some 'H' => some s
+    | _ => none
+
+/-! ### operations -/
+
+def bool01 (t : String) : Bool := t != "0"
+
+/-- Execute one op on the model; `none` = malformed line. -/
+def exec (st : St) (w : List String) : Option (State × String) :=
+  let s := st.s
+  match w with
+  | ["regentity", tx, id, ns, ds, v] => do
+    let r := regEntity s (← tx.toNat?) { id := ← id.toNat?, nodes := ← parseNats ns, signer := ← ds.toNat?, sigValid := bool01 v }
+    pure (r.1, r.2.toString)
+  | ["deregentity", tx] => do
+    let r := deregEntity s (← tx.toNat?)
+    pure (r.1, r.2.toString)
+  | ["regnode", tx, n, sg, v] => do
+    let r := regNode st.ord s (← tx.toNat?) { node := ← parseNode n, signers := ← parseNats sg, sigValid := bool01 v }
+    pure (r.1, r.2.toString)
+  | ["regruntime", c, id, ent, g, k] => do
+    let r := regRuntime s (← parseAddr c)
+      { id := ← id.toNat?, entity := ← ent.toNat?, gov := ← parseGov g, kind := ← parseKind k, suspended := false }
+    pure (r.1, r.2.toString)
+  | ["epoch", e] => do
+    let r := epochTransition s (← e.toNat?)
+    pure (r.1, r.2.toString)
+  | ["setnode", ex, n] => do
+    let old ← if ex == "-" then some none else (parseNode ex).map some
+    pure (setNode st.ord s old (← parseNode n), "ok")
+  | ["removenode", n] => do pure (removeNode s (← parseNode n), "ok")
+  | ["setstatus", id, p] => do
+    pure ({ s with status := s.status.set (← id.toNat?) { expirationProcessed := p == "1" } }, "ok")
+  | ["suspend", r] => do
+    let r ← r.toNat?
+    match s.runtimes.get r with
+    | some rt => if rt.suspended then pure (s, "no-such-runtime")
+                 else pure ({ s with runtimes := s.runtimes.set r { rt with suspended := true } }, "ok")
+    | none => pure (s, "no-such-runtime")
+  | _ => none
+
+def firstDiff : List String → List String → String
+  | [], [] => "none"
+  | a :: _, [] => s!"model has {a}, impl has no more tokens"
+  | [], b :: _ => s!"impl has {b}, model has no more tokens"
+  | a :: as, b :: bs => if a == b then firstDiff as bs else s!"model {a} vs impl {b}"
+
+def splitAt (sep : String) (w : List String) : List String × List String :=
+  (w.takeWhile (· != sep), (w.dropWhile (· != sep)).drop 1)
+
+def step (st : St) (line : String) : St × String :=
+  match words line with
+  | [] => (st, "ok")
+  | ["new", mx, db, mode] =>
+    match mx.toNat?, db.toNat? with
+    | some mx, some db =>
+      ({ st with s := init { maxNodeExpiration := mx, debondingInterval := db }, spec := mode == "tx", dead := false }, "ok")
+    | _, _ => ({ st with dead := true }, "DIVERGE bad-op")
+  | w =>
+    if st.dead then (st, "skip") else
+    let fail (msg : String) : St × String := ({ st with dead := true }, msg)
+    let (opw, rest) := splitAt "=>" w
+    let (resw, toks) := splitAt "|" rest
+    match resw, exec st opw with
+    | [res], some (s', mres) =>
+      if toks == ["DUMP-PANIC"] then fail "DIVERGE state implementation panicked while dumping its state" else
+      let specMsg : Option String :=
+        if st.spec then
+          match readState s'.params s'.epoch toks with
+          | none => some "SPEC dump-unreadable"
+          | some real =>
+            match invFailure real with
+            | some f => some ("SPEC " ++ f)
+            | none => if subKeysUniqueB real then none else some "SPEC subkey-of-two-nodes"
+        else none
+      let mt := tokens s'
+      let divMsg : Option String :=
+        if mres != res then some s!"DIVERGE result model={mres} impl={res}"
+        else if mt != sortStrs toks then some s!"DIVERGE state {firstDiff mt (sortStrs toks)}"
+        else none
+      -- observations that are not failures (corners the code permits, see Props/C17.lean)
+      let notes : String :=
+        (match readState s'.params s'.epoch toks with
+          | some real => if allKeysUniqueB real then "" else " NOTE:identity-key-is-subkey-of-another-node"
+          | none => "") ++
+        (match opw with
+          | ["regnode", _, n, sg, _] =>
+            match parseNode n, parseNats sg with
+            | some n, some sg =>
+              if mres == "ok" && sg.any (fun k => !(n.id :: subKeys n).contains k) then " NOTE:foreign-signature-accepted" else ""
+            | _, _ => ""
+          | _ => "")
+      match divMsg, specMsg with
+      | none, none => ({ st with s := s' }, "ok" ++ notes)
+      | none, some m => ({ st with s := s' }, m)
+      | some d, none => fail d
+      | some d, some m => fail (d ++ "; " ++ m)
+    | _, _ => fail "DIVERGE bad-op"
+
+def main : IO Unit := do
+  let ord := match (← IO.getEnv "OM_REGISTRY_ORDER") with
+    | some "removalsfirst" => Order.removalsFirst
+    | some "interleaved" => Order.interleaved
+    | _ => codeOrder
+  loop step { s := init { maxNodeExpiration := 5, debondingInterval := 1 }, ord := ord }
+
 end OasisModel.Registry.Driver
